@@ -279,7 +279,8 @@ CHECKS = {
         "text": "Partial, static: (typing) under every admitted instantiation of every HydroNode-constructing API function a collection located in a Tick is typed Bounded; (state) in emit_core every "
                 "'static lifetime choice sits on the is_top_level()==true edge, so tick-scoped inputs get 'tick state; (deferral) the DeferTick arm of emit_core emits exactly defer_tick_lazy and no "
                 "other arm emits a deferring operator; all 7 DeferTick::defer_tick / create_source_with_initial bodies build HydroNode::DeferTick on every path; Tick::cycle returns its source "
-                "only through defer_tick and cycle_with_initial through create_source_with_initial, so a tick cycle cannot be closed within one tick. Batch semantics of the operators are NOT decided.",
+                "only through defer_tick and cycle_with_initial through create_source_with_initial, so a tick cycle cannot be closed within one tick; the initial value of such a cycle is merged only behind the first-tick gate (or as the fallback of an always-present singleton). "
+                "Batch semantics of the operators are NOT decided.",
         "note": "Half-join order typing (bounded side preserves the other side's order) is decided under C29.node.",
         "technique": "finite-domain evaluation of the type-level API + branch-guard / must-pass-through analysis on rustc MIR",
     },
